@@ -914,6 +914,8 @@ class Interp:
         if isinstance(base, PyDict):
             if not is_sym(idx):
                 self.implicit("KeyError", idx in base.d, "key-present", node)
+                if self.V.in_contract_expr and idx not in base.d:
+                    return Opaque(f"<no entry {idx!r}>")  # spec expressions are total: a clause about a missing entry is false, not a crash
                 return base.d[idx]
             for k, val in base.d.items():
                 if self.branch(self.py_eq(idx, k)):
@@ -1139,8 +1141,42 @@ class Interp:
         return PyList(r) if isinstance(r, list) else r
 
     def e_SetComp(self, n, env):
+        r = self.symbolic_set_comp(n, env)
+        if r is not _MISSING:
+            return r
         r = self.comp_values(n, env, lambda e: self.eval(n.elt, e))
         return {self.hashable(x) for x in r} if isinstance(r, list) else r
+
+    def symbolic_set_comp(self, n, env):
+        """{elt for x in xs [if c]} over a list of unknown length: the set {v | exists j. 0 <= j < len(xs) and c(xs[j]) and v == elt(xs[j])}
+        (exact: set membership is the only observation a set offers)."""
+        if len(n.generators) != 1 or self.V.extern_pattern(self, n, env) is not _MISSING:
+            return _MISSING
+        g = n.generators[0]
+        if not isinstance(g.target, ast.Name):
+            return _MISSING
+        try:
+            lst = self.eval(g.iter, env)
+        except Unsupported:
+            return _MISSING
+        if not (isinstance(lst, SList) and not isinstance(lst.n, int)):
+            return _MISSING
+        j = z3.Int(self.ctx.fresh_name("sc"))
+        e2 = Env(env)
+        e2.set(g.target.id, list_get(self.ctx, lst, j))
+        conds = [self.zbool(self.eval(c, e2)) for c in g.ifs]
+        v = self.eval(n.elt, e2)
+        if isinstance(v, SV):
+            ety = v.ty
+        elif isinstance(v, str):
+            ety = STR
+        elif isinstance(v, int) and not isinstance(v, bool):
+            ety = INT
+        else:
+            return _MISSING
+        x = z3.Const(self.ctx.fresh_name("sx"), sort_of(ety))
+        body = z3.Exists([j], z3.And(0 <= j, j < lst.nz(), *conds, pack(self.ctx, v, ety) == x))
+        return SSet(z3.Lambda([x], body), ety)
 
     def e_DictComp(self, n, env):
         r = self.comp_values(n, env, lambda e: (self.eval(n.key, e), self.eval(n.value, e)))
